@@ -49,7 +49,9 @@ impl<'a> SpannedText<'a> {
 
     /// Calculate the line and column position, in characters.
     fn linecol(&self, pos: usize) -> (usize, usize) {
-        assert!(pos < self.text.len());
+        // `pos` may equal the text length: a span can end at, or be an empty
+        // span at, the end of the source.
+        assert!(pos <= self.text.len());
         let mut line: usize = 1;
         let mut col: usize = 1;
         for c in self.text[0..pos].chars() {
